@@ -329,10 +329,8 @@ pub fn run_case<G: Cv>(gens: &BulletproofGens<G>, pc: &PedersenGens<G>, c: &Case
         s2.hf[0] += one;
         check("H factor altered", &s2, &pr, n, false, &mut out);
     }
-    for claimed in [n / 2, 2 * n, n + 1] {
-        if claimed == 0 {
-            continue;
-        }
+    let claims: Vec<usize> = if n <= 16 { (0..=2 * n + 1).filter(|m| *m != n).collect() } else { vec![0, n / 2, n / 2 + 1, n - 1, n + 1, 2 * n] };
+    for claimed in claims {
         // the statement vectors keep length n; only the claimed length differs
         out.verifies += 1;
         let real = pr.to_real();
@@ -359,7 +357,7 @@ pub fn main(o: &Opts) -> i32 {
     }
     rep.bounds = json!({"k": if o.tier == Tier::Quick { "0..=5" } else { "0..=7" }, "exhaustive_vectors": if o.tier == Tier::Quick { "n<=2: VAL3^n x VAL3^n; n=4: VAL3^4 x dense and dense x VAL3^4" } else { "n<=4: VAL3^n x VAL3^n" },
         "structured_vectors_n>=4": ["dense", "all ones", "zero lower/upper half (a and b)", "every one-hot position (a and b)"], "factor_patterns": PATTERNS,
-        "deviations": ["P+Q", "a+-1", "b+-1", "drop last round", "duplicate a round", "swap L0<->R0", "swap rounds", "one G factor altered", "one H factor altered", "claimed n in {n/2, 2n, n+1}"], "cases": cs.len()});
+        "deviations": ["P+Q", "a+-1", "b+-1", "drop last round", "duplicate a round", "swap L0<->R0", "swap rounds", "one G factor altered", "one H factor altered", "every claimed length 0..=2n+1 other than n (n <= 16), {0, n/2, n/2+1, n-1, n+1, 2n} above"], "cases": cs.len()});
     rep.curves = CURVES.iter().map(|s| s.to_string()).collect();
     rep.rule = "create a proof with the real code for every (k, a, b, factors) case, verify it with the real code under the recording transcript, and compare every verdict (honest and each single deviation) with an explicit-folding reference that uses the recorded challenges; non-trivial = verify calls whose base is not degenerate".into();
     let start = rep.start;
